@@ -242,6 +242,35 @@ func init() {
 				}
 			}
 		}
+		// 1c. the producer goes quiet in the middle of the document (a pipe, a terminal) while the call already has its
+		// error: a failing writer / callback, a cancellation. The call returns without waiting for more input.
+		{
+			const doc = "- a\n  - b\n- c\n  - d\n- e\n  - f\n"
+			for _, at := range []int{5, 10} {
+				// a cancellation does not depend on how much has been read
+				cn := NewDrv("out-text", doc)
+				cn.ReaderBlockAt, cn.Canceller = at, true
+				add(fmt.Sprintf("quietproducer/at%d/cancel", at), cn, k1, w2)
+			}
+			// (a root block is handed on when the next root line has been read: after 20 bytes the first block is on its way)
+			for _, at := range []int{20, 25} {
+				wf := NewDrv("out-text", doc)
+				wf.ReaderBlockAt, wf.WriterFailAt = at, 1
+				add(fmt.Sprintf("quietproducer/at%d/writerfail", at), wf, k1, w2)
+				jf := NewDrv("out-json", doc)
+				jf.ReaderBlockAt, jf.WriterFailAt = at, 1
+				add(fmt.Sprintf("quietproducer/at%d/json-writerfail", at), jf, k1, w2)
+				cf := NewDrv("walk", doc)
+				cf.ReaderBlockAt, cf.CbFailAt = at, 1
+				add(fmt.Sprintf("quietproducer/at%d/cbfail", at), cf, k1, w2)
+				cn := NewDrv("out-text", doc)
+				cn.ReaderBlockAt, cn.Canceller = at, true
+				add(fmt.Sprintf("quietproducer/at%d/cancel", at), cn, k1, w2)
+				bad := NewDrv("out-text", "- a\n  -\n- c\n  - d\n- e\n")
+				bad.ReaderBlockAt = at
+				add(fmt.Sprintf("quietproducer/at%d/genfail", at), bad, k1, w2)
+			}
+		}
 		// 2. generator-stage failures: every non-empty subset of 3 roots has an empty item
 		for mask := 1; mask < 8; mask++ {
 			doc := ""
